@@ -1,6 +1,6 @@
 (* Statements of Props/C12.v assembled from the lemmas of Ckpt/*.v *)
 From Verif Require Import Lib.Base Mkvs.Trie Mkvs.TrieProofs Mkvs.HashProofs
-  Ckpt.Model Ckpt.Proofs Ckpt.ParProofs Ckpt.RestoreProofs Ckpt.Examples Gen.CkptConsts.
+  Ckpt.Model Ckpt.Proofs Ckpt.ParProofs Ckpt.RestoreProofs Ckpt.Examples Ckpt.Stack Ckpt.StackSim Gen.CkptConsts.
 
 Lemma chunks_cover_l : forall H size threads t, wf t ->
   (forall c, In c (chunks H size threads t) -> incl (pleaves c) (contents t)) /\
@@ -74,3 +74,10 @@ Proof. repeat split; reflexivity. Qed.
 Lemma par_runs_nonempty_l : forall size threads t,
   wf t -> t <> Nil -> Forall (fun r => r <> []) (fst (par_runs size threads t)).
 Proof. intros size threads t W Hn. exact (ParProofs.par_runs_nonempty H0 t W size threads Hn). Qed.
+
+Lemma stack_port_chunks_l : forall H t, wf t -> forall size n, t <> Nil ->
+  exists res, s_par H size (S n) t = Some (res, []) /\ map fst res = chunks H size (S n) t.
+Proof.
+  intros H t W size n Hn. destruct (par_stack_refines_count_l H t W size (S n) Hn) as (res & E & _ & Ec).
+  exists res. split; [exact E|]. rewrite Ec. reflexivity.
+Qed.
